@@ -34,6 +34,8 @@ pub enum Res {
     Panicked,
     /// future created / dropped
     Unit,
+    /// all observers at once
+    ObsVec(Vec<u64>),
 }
 
 impl Res {
@@ -150,5 +152,16 @@ pub fn outcome_of(h: &History) -> Vec<(usize, usize, Res, Option<bool>)> {
         .map(|c| (c.thread, c.idx, c.res.clone(), c.opt_some))
         .collect();
     v.sort();
+    v
+}
+
+/// For single-thread programs the wake counters of the two counting wakers are
+/// part of the outcome (the model predicts them exactly).
+pub fn outcome_with_wakes(h: &History, single: bool) -> Vec<(usize, usize, Res, Option<bool>)> {
+    let mut v = outcome_of(h);
+    if single {
+        v.push((999, 0, Res::Num(h.wakes[0] as u64), None));
+        v.push((999, 1, Res::Num(h.wakes[1] as u64), None));
+    }
     v
 }
